@@ -21,6 +21,7 @@ RULE = ("(a) tree level, against the heap model: random trees x {setter(g, expan
         "off the paths to the changed chunk / field / length is the same object (`is`) as before, the next hash_tree_root() performs <= 2*depth+3+|new value| hashes, a second one / a copy's "
         "/ a re-created view's performs none; (c) containers constructed from hashed field views, also of other class "
         "objects of the same type, and coercion of a container of another class: field backings shared; "
+        "(d) the same sharing rule for one mutation as the first use of a view over a virtual (lazily loaded) tree; "
         "non-trivial = path length >= 2")
 
 
@@ -69,6 +70,13 @@ def gen_inputs(ctx):
         h = gen_history(rng, t, 1 if i % 3 == 0 else rng.randrange(2, 8), top_only=True)
         if h["cmds"]:
             h["kind"] = "view"
+            yield h
+    # the same sharing rule when the backing is a lazily loaded (virtual) tree and the write is its FIRST use
+    for i in range(m // 2):
+        t = MUTABLE_TOP[i % len(MUTABLE_TOP)]
+        h = gen_history(rng, t, 1, top_only=True)
+        if h["cmds"] and t[0] != "union":
+            h["kind"] = "virtview"
             yield h
     # constructors given (hashed) field views, also of other class objects
     conts = [t for t in NESTED + MUTABLE_TOP if t[0] == "cont"]
@@ -543,7 +551,70 @@ def build_childshare_case(inp):
     return cs
 
 
+class RootKeyed:
+    """a VirtualSource over a materialised, hashed tree: children looked up by root"""
+
+    def __init__(self, node):
+        self.tbl = {}
+        self.fill(node)
+
+    def fill(self, n):
+        if n.is_leaf():
+            return
+        self.tbl[bytes(n.merkle_root())] = (bytes(n.get_left().merkle_root()), bytes(n.get_right().merkle_root()))
+        self.fill(n.get_left())
+        self.fill(n.get_right())
+
+    def _side(self, key, k):
+        from remerkleable.virtual import VirtualNode
+        from remerkleable.tree import NavigationError
+        if bytes(key) not in self.tbl:
+            raise NavigationError
+        return VirtualNode(self.tbl[bytes(key)][k], self)
+
+    def get_left(self, key):
+        return self._side(key, 0)
+
+    def get_right(self, key):
+        return self._side(key, 1)
+
+    def is_leaf(self, key):
+        return bytes(key) not in self.tbl
+
+
+def build_virtview_case(inp):
+    """one mutation as the first use of a view over a virtual tree: whatever is off the changed path must be the very
+    child objects the OLD backing hands out (before and after: a virtual node's children are stable)"""
+    t, v, cmd = inp["t"], inp["v"], inp["cmds"][-1]
+    why = None
+    try:
+        from remerkleable.virtual import VirtualNode
+        mat = to_py(t, v)
+        root = mat.hash_tree_root()
+        x = T(t).view_from_backing(VirtualNode(root, RootKeyed(mat.get_backing())))
+        sh = Shadow(t, v)
+        sh.views[0] = x
+        old_backing = x.get_backing()
+        chg = attempt(lambda: changed_positions(t, mat, cmd), anyerr=True)      # read off the materialised twin
+        r = attempt(lambda: sh.run(cmd), anyerr=True)
+        if not isinstance(r, E) and not isinstance(chg, E) and chg is not None:
+            why = sharing_violation(old_backing, x.get_backing(), chg)
+            if why is None and not old_backing.is_leaf() and (old_backing.get_left() is not old_backing.get_left()
+                                or old_backing.get_right() is not old_backing.get_right()):
+                why = "the old virtual backing hands out another child object on every call"
+            if why is None and old_backing.merkle_root() != root:
+                why = "the old virtual backing changed its root"
+    except Exception as e:  # noqa
+        why = "virtual-backing sharing scenario raised %r" % (e,)
+    cs = Case(inp, "(R \"00\", false, (OpSummarize 1%N), (0%N, 0%N, 0%N))", [True, b"\x00", [], True, True, True, 0], NAMES,
+              nontrivial=True, kind="virtview:" + cmd[0])
+    cs.why = why
+    return cs
+
+
 def build(inp):
+    if inp["kind"] == "virtview":
+        return build_virtview_case(inp)
     if inp["kind"] == "childshare":
         return build_childshare_case(inp)
     if inp["kind"] == "defaults":
